@@ -4,6 +4,8 @@ CONSTANTS
   Fix = {"S7", "S13", "S14"}
   Known = {}
   Gen = FALSE
+  StripProps = {"hash_c1", "hash_c2"}
+  Weak = {}
 INVARIANT Inv_NoViolation
 INVARIANT Inv_SecretsAgree
 PROPERTY Live
